@@ -34,6 +34,7 @@ def _claim(pid, decided, notdecided, technique, extra_note=''):
 
 
 _claim('C03',
+       'C03.R12 every masked extraction is dispatched with the requested number of phases. '
        "C03.R1 residual invariant for the layer loops of sift, mask_sift, complete_ensemble_sift; C03.R2 the cap reaches "
        "the extraction only in length positions; C03.R3 affine counter relation of every cap guard simulated for cap=1..8 "
        "(columns <= cap, guard reachable, guard stops the loop); C03.R4 member column indexing bounded by the smallest "
@@ -41,6 +42,7 @@ _claim('C03',
        "finiteness of outputs for finite inputs.",
        "path-sensitive abstract interpretation + polynomial normal forms + affine counter model")
 _claim('C04',
+       "C04.R8 'returned unmodified / no extrema' only for fewer than two extrema (none-chain through get_padded_extrema). "
        "C04.R1 iterate algebra (returned IMF = iterate - (U+L)/2, update = iterate - step*(U+L)/2, envelopes of the "
        "current iterate with identical options); C04.R2 stop dispatch table with argument binding; C04.R3 stop "
        "predicates in boolean normal form vs. documented criteria; C04.R4 counter +1 per iteration, limit guard with "
@@ -49,6 +51,7 @@ _claim('C04',
        "convergence speed; progress of the re-padding loop of get_padded_extrema (trusted np.pad).",
        "path-sensitive abstract interpretation (loop peeling + widening) + polynomial / boolean normal forms")
 _claim('C06',
+       'C06.R3 also: get_func is partial(<own variant>, **current store) - never a cached callable. '
        "C06.R1 every option carrier is bound from caller to callee at every call / partial / pool dispatch on every "
        "evaluated path, down to the stage it configures (positional starmap tuples included); C06.R2 carriers are only "
        "replaced by the defaulting idiom with signature-equal literals; C06.R3 configuration keys are formals and do "
@@ -56,6 +59,7 @@ _claim('C06',
        "how much an option changes the numbers.",
        "resolved call graph + argument binding (keyword, positional, **, functools.partial, starmap tuples) on evaluated paths")
 _claim('C08',
+       "C08.R5 noise_mode reaches every dispatch of the noise worker (evaluated with 'flip'). "
        "C08.R1 no draw from the inherited process-global RNG is reachable in a pool worker under the arguments bound at "
        "its dispatch site, and bound noise is a per-member column of a parent-side matrix with one entry per sample along the other axis; C08.R2 member algebra "
        "(single / flip with the same draw and identical options) and per-IMF mean over members; C08.R3 zero noise level "
@@ -84,6 +88,7 @@ _claim('C18',
        "behaviour of the callable returned by get_func beyond keyword binding.",
        "symbolic reconstruction of the config term + sibling comparison + document-shape substitution + mutation analysis")
 _claim('C20',
+       "C20.R5 also: get_level returns the console handler's level or None. "
        "C20.R1 typestate of the console level in the verbosity wrapper over all normal and exceptional outcomes; "
        "C20.R2 None-safety of the saved level; C20.R3 logging is write-only in numeric modules (pure arguments, no "
        "state reads); C20.R4 decorators are transparent; C20.R5 accessors touch only 'console' handlers of logger 'emd' and never configure logging.",
@@ -100,6 +105,7 @@ _claim('C02',
        "bit-exactness for +-2^k; exact time-reversal equality of scipy's spline solvers; the guard band near thresholds.",
        "abstract interpretation in a homogeneity-degree domain over evaluated paths; sibling comparison by substitution")
 _claim('C05',
+       'C05.R8 the extrema are handed back whenever there are at least two (none-chain); C05.R9 no in-place arithmetic in, and no cast of computed arrays to, the dtype of an input. '
        "C05.R1 strict order-1 extrema search unfiltered on the default path; C05.R2 trough/peak conjugacy; C05.R3 aligned "
        "two-array padding and exact exit test of the re-padding loop; C05.R4 integrality of the interpolation grid for "
        "every option value (parabolic refinement makes locations real), same grid for evaluation and mask, mask "
@@ -114,6 +120,7 @@ _claim('C07',
        "numerical closeness to an executable specification of the masking rule.",
        "term decoding on evaluated paths + polynomial normal forms + pool effect summaries")
 _claim('C09',
+       "C09.R3 also: the per-column iteration of amplitude_normalise starts from that column's own state. "
        "C09.R1 every return wraps the unwrapped phase with wrap_phase('2pi') == mod(ncycles*2pi); C09.R2 frequency is "
        "freq_from_phase of the same unwrapped phase, freq_from_phase / phase_from_freq coefficients (product 1); "
        "C09.R3 homogeneity degrees (0, 0, 1) for hilbert / nht / quad, the normalisation core of amplitude_normalise and its per-column iteration budget; "
@@ -135,6 +142,7 @@ _claim('C11',
        "floating-point summation order.",
        "finite abstract domain of index-class pairs + term decoding")
 _claim('C14',
+       'C14.R7 the bin definition used for binning and alignment (define_hist_bins: edges by scale, centres = midpoints). '
        "C14.R1 reducer argument is vals[where(label == i)] stored in slot i over range(max+1); C14.R2 NaN-initialised "
        "projection written through the same lookup; C14.R3 phase_align uses one index set for phase and value, the bin "
        "centres of define_hist_bins(0, 2pi, npoints), column = cycle; C14.R4 the bin loop of bin_by_phase covers every "
